@@ -50,9 +50,12 @@ void a_str_swap(a_str *lhs, a_str *rhs)
 
 char *a_str_exit(a_str *ctx)
 {
-    char *const str = ctx->ptr_;
+    char *str = ctx->ptr_;
     if (ctx->ptr_)
     {
+        /* num_ == mem_ after a_str_catn_, a_str_catc_ or a_str_setn: make room for the terminator */
+        if (a_str_setm(ctx, ctx->num_ + 1) != A_SUCCESS) { return A_NULL; }
+        str = ctx->ptr_;
         ctx->ptr_[ctx->num_] = 0;
         ctx->ptr_ = A_NULL;
     }
